@@ -974,3 +974,52 @@ contract(
           "the table built from these records (pd.DataFrame.from_records) and the cover statement that do_target uses stay "
           "with the assumed contract of GenomicArray.subdivide and its bounded twin",
 )
+
+
+# ----------------------------------------------------------------------------- deductive: idx_ranges, the dispatch between the kernels
+# Two contracts on the one function, told apart by the precondition the dispatch itself tests (key suffixes #simple /
+# #nested): whichever kernel is chosen, query q selects exactly the rows the statement's rule selects.
+
+_IDX_REQ = ["len(table) > 0", "nondecreasing(table.start)",
+            "forall(0, len(table), lambda k: 0 <= table.start[k] and table.start[k] < table.end[k])",
+            "len(starts) == len(ends)", "len(starts) > 0", "forall(0, len(starts), lambda q: starts[q] >= 0)"]
+contract(
+    "skgenome/intersect.py::idx_ranges#simple",
+    params=dict(table=_TAB, starts=VecT(Int, kind="series"), ends=VecT(Int, kind="series"), mode=Lit("inner", "outer")),
+    yields=TupT(SliceT(), Int, Opt(Int)),
+    # the ends of the rows are sorted too (stated pairwise for the callee and neighbour-wise, as the dispatch tests it;
+    # the two are equivalent, lemma adjacent_monotone)
+    requires=_IDX_REQ + ["nondecreasing(table.end)",
+                         "table.end.is_monotonic_increasing"],
+    loops={0: dict(inv=[("passed_on", "len(out_) == i_ and forall(0, i_, lambda q: out_[q][0].start == iter_[q][0].start and out_[q][0].stop == iter_[q][0].stop)")])},
+    ensures=[
+        ("one_selector_per_query", "len(result) == len(starts)"),
+        ("selected_iff_hit", "forall(0, len(result), lambda q: forall(0, len(table), lambda k: "
+                             "(result[q][0].start <= k and k < result[q][0].stop) == hitq(mode, table.start[k], table.end[k], starts[q], ends[q])))"),
+    ],
+    props=("C07",), domain="skip",
+    canaries=[("dispatch_on_starts", "if not table.end.is_monotonic_increasing:", "if not table.start.is_monotonic_increasing:"),
+              ("mode_not_passed_on", "in irange_func(table, starts, ends, mode):", 'in irange_func(table, starts, ends, "outer"):'),
+              ("nested_kernel_always", "            irange_func = _irange_simple", "            irange_func = _irange_nested")],
+    notes="the dispatch of idx_ranges when the rows' ends are sorted (key suffix #simple: one of two contracts on the same function, split by the precondition the dispatch tests); queries given as two Series",
+)
+
+contract(
+    "skgenome/intersect.py::idx_ranges#nested",
+    params=dict(table=_TAB, starts=VecT(Int, kind="series"), ends=VecT(Int, kind="series"), mode=Lit("inner", "outer")),
+    yields=TupT(VecT(Bool), Opt(Int), Opt(Int)),
+    # some row is nested in an earlier one: the ends are not sorted
+    requires=_IDX_REQ + ["not table.end.is_monotonic_increasing"],
+    loops={0: dict(inv=[("passed_on", "len(out_) == i_ and forall(0, i_, lambda q: len(out_[q][0]) == len(iter_[q][0]) and "
+                                      "forall(0, len(table), lambda k: out_[q][0][k] == iter_[q][0][k]))")])},
+    ensures=[
+        ("one_selector_per_query", "len(result) == len(starts)"),
+        ("selected_iff_hit", "forall(0, len(result), lambda q: len(result[q][0]) == len(table) and forall(0, len(table), lambda k: "
+                             "result[q][0][k] == hitq(mode, table.start[k], table.end[k], starts[q], ends[q])))"),
+    ],
+    props=("C07",), domain="skip",
+    canaries=[("dispatch_on_starts", "if not table.end.is_monotonic_increasing:", "if not table.start.is_monotonic_increasing:"),
+              ("mode_not_passed_on", "in irange_func(table, starts, ends, mode):", 'in irange_func(table, starts, ends, "outer"):'),
+              ("simple_kernel_always", "            irange_func = _irange_nested", "            irange_func = _irange_simple")],
+    notes="the dispatch of idx_ranges when some row is nested in another (ends not sorted): the mask kernel must be chosen",
+)
